@@ -1,5 +1,7 @@
 import ZCV.Lemmas.Misc
 import ZCV.Lemmas.Include
+import ZCV.Lemmas.SlotsLoad
+import ZCV.Lemmas.SlotsEx
 namespace ZCV.Props.C13
 open ZCV ZCV.Cfg
 
@@ -7,8 +9,10 @@ open ZCV ZCV.Cfg
     opening a section, closing a section and adding a value leave it exactly as it was (only `%import` extends it) -/
 theorem C13_start_keeps_schema (st st' : LS) (ty : Str) (nm : Option Str) (h : lsStart st ty nm = .ok st') :
     st'.schema = st.schema := lsStart_schema st st' ty nm h
+/-- closing a section leaves the schema as it was -/
 theorem C13_stop_keeps_schema (st st' : LS) (ty : Str) (nm : Option Str) (h : lsStop st ty nm = .ok st') :
     st'.schema = st.schema := lsStop_schema st st' ty nm h
+/-- adding a key's value leaves the schema as it was -/
 theorem C13_value_keeps_schema (st st' : LS) (k v : Str) (p : Pos) (h : lsValue st k v p = .ok st') :
     st'.schema = st.schema := lsValue_schema st st' k v p h
 
@@ -21,5 +25,115 @@ theorem C13_parse_without_import_keeps_schema (env : Env)
     (hl : ∀ l ∈ lines, NoImportLine l)
     (h : parseLines fuel env loaderCtx active url lines n st = .ok st') : st'.ctx.schema = st.ctx.schema :=
   parse_without_import_keeps_schema env hres fuel active url lines n st st' hl h
+
+/-- … and so does every PREFIX of such a text: when an import-free load fails at some line, the schema it held up to
+    that line was still exactly the one it started with (the model reports no schema for a failed load; this is the
+    statement that covers them) -/
+theorem C13_prefix_without_import_keeps_schema (env : Env)
+    (hres : ∀ u ls, env.res u = some ls → ∀ l ∈ ls, NoImportLine l)
+    (fuel : Nat) (active : List Str) (url : Option Str) (lines : List Str) (n : Nat) (st st' : PS LS)
+    (hl : ∀ l ∈ lines, NoImportLine l)
+    (h : runLines fuel env loaderCtx active url lines n st = .ok st') : st'.ctx.schema = st.ctx.schema :=
+  run_without_import_keeps_schema env hres fuel active url lines n st st' hl h
+
+/-- **A load without `%import` returns the schema it was given.**  If no line of the text and no line of any resource
+    the text could `%include` is an `%import` line, then after a successful `load` — with or without command-line
+    overrides, whatever the datatypes do — the application's schema (`schemaAfter`: types, children, defaults,
+    implementers of every abstract type, components) is exactly the schema passed in. -/
+theorem C13_load_without_import_keeps_schema (conv : Conv) (env : Env) (pkgs : Str → Pkg) (s : Schema) (url : Option Str)
+    (lines specs : List Str) (r : LoadResult)
+    (hres : ∀ u ls, env.res u = some ls → ∀ l ∈ ls, NoImportLine l) (hl : ∀ l ∈ lines, NoImportLine l)
+    (h : load conv env pkgs s url lines specs = .ok r) : r.schemaAfter = s :=
+  load_without_import_keeps_schema conv env pkgs s url lines specs r hres hl h
+
+/-- the same for a text that has neither `%import` nor `%include` lines, with NO assumption on the resources around -/
+theorem C13_load_plain_keeps_schema (conv : Conv) (env : Env) (pkgs : Str → Pkg) (s : Schema) (url : Option Str)
+    (lines specs : List Str) (r : LoadResult) (hl : ∀ l ∈ lines, PlainLine l)
+    (h : load conv env pkgs s url lines specs = .ok r) : r.schemaAfter = s :=
+  load_plain_keeps_schema conv env pkgs s url lines specs r hl h
+
+/-- the outcome of a load is a function of the schema's description (and of the text, overrides, resources, packages and
+    datatypes) and of nothing else — there is no hidden state in the model: a later load against the schema object a
+    first load left behind is the load against the original schema as soon as that first load left the description
+    unchanged -/
+theorem C13_outcome_function_of_schema (conv : Conv) (env : Env) (pkgs : Str → Pkg) (s : Schema) (r : LoadResult)
+    (url : Option Str) (lines specs : List Str) (h1 : r.schemaAfter = s) :
+    load conv env pkgs r.schemaAfter url lines specs = load conv env pkgs s url lines specs := by rw [h1]
+
+/-- **History independence (import-free histories).**  Run any sequence of loads — successful or failing, with or
+    without overrides — one after the other against ONE schema object (`runHistory`: each load starts from what the
+    previous one left behind).  If none of the texts, and none of the resources they can include, has an `%import` line,
+    then every load of the sequence gives exactly what the same load gives against the fresh schema, and the schema
+    object at the end is the schema at the start. -/
+theorem C13_history_independent (conv : Conv) (env : Env) (pkgs : Str → Pkg)
+    (hres : ∀ u ls, env.res u = some ls → ∀ l ∈ ls, NoImportLine l) (s : Schema) (hist : List LoadReq)
+    (hh : ∀ q ∈ hist, ∀ l ∈ q.lines, NoImportLine l) :
+    runHistory conv env pkgs s hist = (hist.map fun q => load conv env pkgs s q.url q.lines q.specs, s) :=
+  runHistory_without_import conv env pkgs hres s hist hh
+
+/-- in particular the load that comes after any import-free history gives what it gives on a fresh schema -/
+theorem C13_load_after_history (conv : Conv) (env : Env) (pkgs : Str → Pkg)
+    (hres : ∀ u ls, env.res u = some ls → ∀ l ∈ ls, NoImportLine l) (s : Schema) (hist : List LoadReq)
+    (hh : ∀ q ∈ hist, ∀ l ∈ q.lines, NoImportLine l) (url : Option Str) (lines specs : List Str) :
+    load conv env pkgs (runHistory conv env pkgs s hist).2 url lines specs = load conv env pkgs s url lines specs := by
+  rw [runHistory_without_import conv env pkgs hres s hist hh]
+
+/-! ### closed instances: the hypotheses are satisfiable, and with `%import` the statement is FALSE -/
+
+/-- the import-free hypotheses of the theorems above hold for ordinary texts: comment, key line, section lines -/
+example : ∀ l ∈ ["# c".toList, "k v".toList, "<leak x>".toList, "</leak>".toList], NoImportLine l := by
+  intro l hl a
+  simp only [List.mem_cons, List.mem_nil_iff, or_false] at hl
+  rcases hl with rfl | rfl | rfl | rfl
+  · rw [shape_of_classify "# c".toList (by decide) .skip (by simp) (by decide)]; simp
+  · rw [shape_of_classify "k v".toList (by decide) (.kv "k".toList "v".toList) (by simp) (by decide)]; simp
+  · rw [shape_of_classify "<leak x>".toList (by decide) (.open_ "leak".toList (some "x".toList) false) (by simp) (by decide)]
+    simp
+  · rw [shape_of_classify "</leak>".toList (by decide) (.close "leak".toList) (by simp) (by decide)]; simp
+
+/-- `C13_load_without_import_keeps_schema` at work: the one-line text `# c` loads, and leaves the schema as it was -/
+example : ∃ r, load Ex.conv Ex.env Ex.pkgs Ex.schema none ["# c".toList] [] = .ok r ∧ r.schemaAfter = Ex.schema := by
+  obtain ⟨r, hr⟩ := Ex.load_comment
+  refine ⟨r, hr, C13_load_without_import_keeps_schema _ _ _ _ _ _ _ r (fun _ _ h => by cases h) ?_ hr⟩
+  intro l hl a
+  simp only [List.mem_cons, List.mem_nil_iff, or_false] at hl
+  subst hl
+  rw [shape_of_classify "# c".toList (by decide) .skip (by simp) (by decide)]; simp
+
+/-- **Counter-fact (known finding C13-implementers-leak).**  With `%import` the conclusion of
+    `C13_load_without_import_keeps_schema` FAILS in the model, as it does in ZConfig: loading the one-line text
+    `%import p` against a schema with an abstract type `ab` and no implementers succeeds, and the application's schema
+    afterwards lists the imported type `leak` among the implementers of `ab` (the abstract-type tables are shared between
+    the application's schema and the load's private copy). -/
+theorem C13_import_alters_schema_counterexample :
+    ∃ r, load Ex.conv Ex.env Ex.pkgs Ex.schema none ["%import p".toList] [] = .ok r ∧
+      Conf.implementers Ex.schema "ab".toList = [] ∧
+      Conf.implementers r.schemaAfter "ab".toList = ["leak".toList] ∧ r.schemaAfter ≠ Ex.schema := by
+  obtain ⟨r, hr, hs⟩ := Ex.load_import_p
+  refine ⟨r, hr, by decide, by rw [hs]; decide, ?_⟩
+  intro h
+  rw [hs] at h
+  have : Conf.implementers Ex.schema' "ab".toList = Conf.implementers Ex.schema "ab".toList := by rw [h]
+  exact absurd this (by decide)
+
+/-- … and therefore a history containing such a load does not end on the schema it started with -/
+theorem C13_history_with_import_counterexample :
+    Conf.implementers (runHistory Ex.conv Ex.env Ex.pkgs Ex.schema [⟨none, ["%import p".toList], []⟩]).2 "ab".toList
+      = ["leak".toList] := by
+  obtain ⟨r, hr, _, h2, _⟩ := C13_import_alters_schema_counterexample
+  rw [runHistory_cons]
+  simp only [hr]
+  exact h2
+
+/-- REMARK on the model, stated as a fact so that it is not overlooked: `schemaAfter` is the load's whole private schema.
+    After `%import p` it also contains the imported concrete type and the component's URL.  In ZConfig only the
+    abstract-type implementer tables are shared with the application's schema (`createDerivedSchema` copies the type
+    and component tables), so of `schemaAfter` only the abstract entries describe the application's schema — which is
+    what the driver reports (`encAbstract`).  For import-free loads the distinction disappears (`schemaAfter = s`). -/
+theorem C13_model_schemaAfter_is_private_schema :
+    ∃ r, load Ex.conv Ex.env Ex.pkgs Ex.schema none ["%import p".toList] [] = .ok r ∧
+      r.schemaAfter.components = ["u".toList] ∧ r.schemaAfter.gettype "leak".toList = some (.concrete Ex.leak) := by
+  obtain ⟨r, hr, hs⟩ := Ex.load_import_p
+  exact ⟨r, hr, by rw [hs]; rfl, by rw [hs]; rfl⟩
 
 end ZCV.Props.C13
